@@ -395,6 +395,13 @@ KERNELS += [
            branch=lambda body: [s for s in body if not (isinstance(s, ast.AugAssign) and ast.unparse(s.target) == "res[:-1]")]),
 ]
 
+KERNELS += [
+    # IndexableArray._get_element: refusal (safe mode) and the flat position of cell (row, col), per pair
+    Kernel("npstructures/raggedarray/indexablearray.py", "IndexableArray", "_get_element", "gen_get_element",
+           [("row", "Z"), ("col", "Z"), ("nrows", "Z"), ("len_", "Z"), ("s_", "Z")], {}, selfmap={"_safe_mode": "(1)"}, ret="option (Z * unit)",
+           calls={"self._shape.n_rows": "nrows", "self._shape.lengths[row]": "len_", "self._shape.starts[row]": "s_"}),
+]
+
 RL = "npstructures/runlengtharray.py"
 KERNELS += [
     # RunLengthArray._get_slice: the window [start, end) in forward coordinates, None when it is empty
@@ -414,7 +421,7 @@ KERNELS += [
            branch=with_return("indices", cut=lambda s: "remove_empty_intervals" in ast.unparse(s))),
 ]
 
-GROUPS = {"view": ["gen_calc_len", "gen_pos_col_slice", "gen_neg_col_slice", "gen_col_int", "gen_ends"], "hash": ["gen_hash"], "rle": ["gen_rle_wrap", "gen_rle_slice_bounds", "gen_rle_step_idx", "gen_rl2_step_idx"],
+GROUPS = {"view": ["gen_calc_len", "gen_pos_col_slice", "gen_neg_col_slice", "gen_col_int", "gen_ends"], "hash": ["gen_hash"], "elem": ["gen_get_element"], "rle": ["gen_rle_wrap", "gen_rle_slice_bounds", "gen_rle_step_idx", "gen_rl2_step_idx"],
           "bits": ["gen_bit_init", "gen_bit_get", "gen_bit_get_arr", "gen_bit_unpack", "gen_bit_pack", "gen_bit_window", "gen_bit_window_last"]}
 
 
